@@ -240,7 +240,7 @@ def run_journaled(ctx, base_cmd, journal, kind_done=("F", "V", "A"), stall=None,
 
 NAME_POOL = ["readme.txt", "README2.TXT", "Data File.bin", "icon.blp", "Model.M2", "noext", "a.b.c.d", "Spell (copy).dbc", "UPPER.DAT", "lower.dat2",
              "MixedCase.Txt", "x", "long_name_with_many_characters_0123456789_abcdefghijklmnopqrstuvwxyz.lua", "tile_32_48.adt", "Map.wdt", "sound.wav",
-             "-dash.txt", "under_score.TOC", "comma,name.txt", "plus+sign.xml", "hash#tag.txt", "100%.txt", "tilde~.bak", "brace{1}.txt", "at@sign.txt"]
+             "-dash.txt", "notes.txt.txt", "banana", "m2.m2.M2", "under_score.TOC", "comma,name.txt", "plus+sign.xml", "hash#tag.txt", "100%.txt", "tilde~.bak", "brace{1}.txt", "at@sign.txt"]
 DIRS = ["", "sub", "Sub Dir", "deep/er/est", "UPPER"]
 WORDS = [b"azeroth", b"kalimdor", b"outland", b"northrend", b"pandaria", b"draenor", b"texture", b"model", b"terrain", b"\r\n", b" ", b"\t", b"0123456789", b"{}[]();"]
 
@@ -297,6 +297,20 @@ def make_fileset(ctx, k):
         with open(p, "wb") as f:
             f.write(data)
         files.append({"name": nm, "path": p, "data": data, "cls": cls})
+    # every other set: an input whose file name contains characters that shells treat as patterns (brackets: `?` and `*` are
+    # refused by the extraction guard as unsafe on other systems, so they cannot make a round trip), standing next to a file
+    # the name would match if it were read as a pattern; the neighbour is itself an input in half of these sets (after C20-r6m1).
+    # An argument of `-a` names one file.
+    if k % 2 == 1:
+        meta, sib = [("icon[1].png", "icon1.png"), ("img[0-9].blp", "img7.blp"), ("set[!x]y.bin", "setay.bin"), ("tab[a-c].dat", "tabb.dat")][(k // 2) % 4]
+        d = os.path.join(root, "glob")
+        os.makedirs(d, exist_ok=True)
+        for j, nm in enumerate((meta, sib)):
+            data = gen_content(rnd, "text", 300 + 50 * j + k)
+            with open(os.path.join(d, nm), "wb") as f:
+                f.write(data)
+            if j == 0 or (k // 8) % 2 == 0:
+                files.append({"name": nm, "path": os.path.join(d, nm), "data": data, "cls": "text"})
     return files
 
 
@@ -800,8 +814,38 @@ def vget(view, key):
 
 
 def wildcard_match(name, pat):
-    """utils/io.rs::matches_pattern, for the patterns used here (`*suffix`)."""
-    return name.lower().endswith(pat.lower().lstrip("*"))
+    """What `--filter` promises (utils/io.rs: "simple wildcard pattern matching"): without regard to case; `*` stands for any run
+    of characters, every other character for itself, and the whole name must be covered; a pattern without `*` selects the
+    names that contain it."""
+    name, pat = name.lower(), pat.lower()
+    if pat in ("", "*"):
+        return True
+    if "*" not in pat:
+        return pat in name
+    return re.fullmatch(".*".join(re.escape(x) for x in pat.split("*")), name, re.S) is not None
+
+
+def derived_filters(names, k):
+    """Filters made from the archive's own names (after C20-r6m2): a suffix, a prefix, an infix, two pieces of one name with the
+    middle left out, a piece that occurs more than once in a name, one that selects nothing."""
+    out = ["*.txt"]
+    plain = sorted(n for n in names if "*" not in n and len(n) >= 3)
+    if plain:
+        a = plain[k % len(plain)]
+        b = plain[(k * 7 + 3) % len(plain)]
+        out += ["*" + a[-2:], a[:2] + "*", "*" + b[1:-1] + "*", a[:1] + "*" + a[-1:], b[:2] + "*" + b[-3:], "*" + a[len(a) // 2:], b[1:3]]
+        rep = [n for n in plain if any(n.count(n[i:i + 2]) > 1 for i in range(len(n) - 1))]
+        if rep:
+            r = rep[k % len(rep)]
+            piece = next(r[i:i + 2] for i in range(len(r) - 1) if r.count(r[i:i + 2]) > 1)
+            out += ["*" + piece, r[:1] + "*" + piece, "*" + r[r.rfind(piece):]]
+    out.append("*.no-such-ext")
+    seen, uniq = set(), []
+    for f in out:
+        if f not in seen and not f.startswith("-"):
+            seen.add(f)
+            uniq.append(f)
+    return uniq
 
 
 def slice_list_info(ctx, sink, archives):
@@ -810,7 +854,9 @@ def slice_list_info(ctx, sink, archives):
     jobs = []
     for a in archives:
         jobs.append((a, "list", "plain", ["mpq", "list", a["path"]]))
-        jobs.append((a, "list", "filter", ["mpq", "list", a["path"], "--filter", "*.txt"]))
+        lst = (vget(views.get(str(a["idx"])), "list") == "ok") and views[str(a["idx"])]["list"]["names"] or []
+        for flt in derived_filters(lst, a["idx"]):
+            jobs.append((a, "list", "filter:" + flt, ["mpq", "list", a["path"], "--filter", flt]))
         jobs.append((a, "info", "plain", ["mpq", "info", a["path"]]))
     outs = pmap(lambda j: ctx.run_cli(j[3]), jobs)
     for (a, sub, opt, args), r in zip(jobs, outs):
@@ -828,8 +874,10 @@ def slice_list_info(ctx, sink, archives):
                 viols.append(("list-ne-library", f"`mpq list` exited {rc_class(rc)} on an archive the tool created and the library lists", dict(detail, stderr=r["err"][-400:])))
             else:
                 names = view["list"]["names"]
-                if opt == "filter":
-                    names = [n for n in names if wildcard_match(n, "*.txt")]
+                if opt.startswith("filter:"):
+                    names = [n for n in names if wildcard_match(n, opt[7:])]
+                    res.add_counter("list_filters_compared", 1)
+                    res.add_counter("list_filters_selecting_" + ("nothing" if not names else "some" if len(names) < len(view["list"]["names"]) else "all"), 1)
                 lines = [l for l in r["out"].split("\n") if l != ""]
                 if not names and lines and lines[0].startswith("No files found"):
                     lines = []
@@ -852,7 +900,7 @@ def slice_list_info(ctx, sink, archives):
                 mf = re.search(r"^Format version:\s*(\S+)", r["out"], re.M)
                 if mf and mf.group(1) != view["info"].get("format"):
                     viols.append(("info-count-ne-library", f"`mpq info` says format {mf.group(1)}, the library {view['info'].get('format')}", detail))
-        sink.record("mpq", sub, "valid", f"cmp-{opt}", r, viols, sample={"slice": "B", "cmd": short_cmd(args, ctx.scratch), "exit": rc, "library_names": len((view or {}).get("list", {}).get("names", []))},
+        sink.record("mpq", sub, "valid", f"cmp-{opt.split(':')[0]}", r, viols, sample={"slice": "B", "cmd": short_cmd(args, ctx.scratch), "exit": rc, "library_names": len((view or {}).get("list", {}).get("names", []))},
                     replay={"slice": "B", "archive": a["idx"], "sub": sub, "opt": opt})
     return views
 
